@@ -24,6 +24,19 @@
 //! val <value script>:  Display of the lone Value, Value::from_str, dumps; for arrays and inline
 //!                      tables also the Display of the Array / InlineTable itself
 //! key <bytes>:         Key::new(k).to_string(), Key::from_str
+//! toml <kind> <value script> [key]:  the same value script read as a toml::Value (arrays -> Value::Array, inline
+//!                      tables -> toml::Table filled with `insert` in script order: BTreeMap, or IndexMap under the
+//!                      harness feature `po`; the construction modes of the script are ignored) and printed by toml's
+//!                      own entry points:
+//!     kind 'V'  a lone value of any kind:  vd = `Display for toml::Value`, read back through
+//!               toml::de::ValueDeserializer
+//!     kind 'X'  the entry `table[key]` of a root table (Index of Value and of Table): printed and read back like 'V'
+//!     kind 'T'  a root table:  vd as above;  vs / vp = toml::to_string / to_string_pretty (&Value::Table);
+//!               td = `Display for toml::Table`; ts / tp = toml::to_string / to_string_pretty (&Table)
+//!               (ts must equal td); documents are read back with toml::from_str::<Value> (td: str::parse::<Table>)
+//!     every text: <name>=<hex> got_<name>=<dump of what toml's own reader makes of it | ERR>
+//!                 e_<name>=<dump of what toml_edit's parser makes of it (Value::from_str / DocumentMut), in text order:
+//!                 no serde layer in between | ERR>; built=<dump>; twice=ok|BAD; map=bt|po
 use std::str::FromStr;
 use toml_edit::{Array, ArrayOfTables, Date, Datetime, DocumentMut, InlineTable, Item, Key, Offset, Table, Time, Value};
 use verif_harness::tree::{show_table, show_value};
@@ -258,6 +271,195 @@ fn cmd_key(args: &Args) -> String {
     format!("t={} parse={parse} got={got} twice={}", hex(text.as_bytes()), verdict(twice))
 }
 
+// ---- toml::Value / toml::Table (crates/toml): Display, to_string, to_string_pretty ----
+fn rd_tv(r: &mut Rd<'_>) -> toml::Value {
+    use toml::Value as TV;
+    match r.u8() {
+        b's' => TV::String(r.key()),
+        b'i' => TV::Integer(r.be(8) as i64),
+        b'f' => {
+            let bits = r.be(8);
+            let _neg = r.u8();
+            let mlen = r.u8() as usize;
+            r.take(mlen);
+            r.take(2);
+            TV::Float(f64::from_bits(bits))
+        }
+        b'b' => TV::Boolean(r.u8() != 0),
+        b'd' => {
+            let flags = r.u8();
+            let date = if flags & 1 != 0 {
+                let year = r.be(2) as u16;
+                let month = r.u8();
+                let day = r.u8();
+                Some(Date { year, month, day })
+            } else {
+                None
+            };
+            let time = if flags & 2 != 0 {
+                let hour = r.u8();
+                let minute = r.u8();
+                let second = r.u8();
+                let nanosecond = r.be(4) as u32;
+                Some(Time { hour, minute, second, nanosecond })
+            } else {
+                None
+            };
+            let offset = if flags & 4 != 0 {
+                Some(Offset::Z)
+            } else if flags & 8 != 0 {
+                Some(Offset::Custom { minutes: r.be(2) as u16 as i16 })
+            } else {
+                None
+            };
+            TV::Datetime(Datetime { date, time, offset })
+        }
+        b'A' => {
+            let _mode = r.u8();
+            let n = r.u8();
+            TV::Array((0..n).map(|_| rd_tv(r)).collect())
+        }
+        b'I' => {
+            let _mode = r.u8();
+            let n = r.u8();
+            let mut t = toml::Table::new();
+            for _ in 0..n {
+                let k = r.key();
+                let v = rd_tv(r);
+                t.insert(k, v);
+            }
+            TV::Table(t)
+        }
+        c => panic!("script: bad value tag {c}"),
+    }
+}
+
+fn show_tv(v: &toml::Value) -> String {
+    use toml::Value as TV;
+    match v {
+        TV::String(s) => format!("s:{}", hex(s.as_bytes())),
+        TV::Integer(i) => format!("i:{i}"),
+        TV::Float(f) => verif_harness::tree::show_f64(*f),
+        TV::Boolean(b) => format!("b:{b}"),
+        TV::Datetime(d) => verif_harness::dt::show_datetime(d),
+        TV::Array(a) => {
+            let parts: Vec<String> = a.iter().map(show_tv).collect();
+            format!("[{}]", parts.join(","))
+        }
+        TV::Table(t) => show_tt(t),
+    }
+}
+
+fn show_tt(t: &toml::Table) -> String {
+    let parts: Vec<String> = t.iter().map(|(k, v)| format!("{}={}", hex(k.as_bytes()), show_tv(v))).collect();
+    format!("{{{}}}", parts.join(","))
+}
+
+fn got_value_text(text: &str) -> String {
+    use serde::Deserialize;
+    match toml::Value::deserialize(toml::de::ValueDeserializer::new(text)) {
+        Ok(v) => show_tv(&v),
+        Err(_) => "ERR".to_string(),
+    }
+}
+
+fn got_doc_text(text: &str) -> String {
+    match toml::from_str::<toml::Value>(text) {
+        Ok(v) => show_tv(&v),
+        Err(_) => "ERR".to_string(),
+    }
+}
+
+fn edit_value_text(text: &str) -> String {
+    match Value::from_str(text) {
+        Ok(v) => show_value(&v),
+        Err(_) => "ERR".to_string(),
+    }
+}
+
+fn edit_doc_text(text: &str) -> String {
+    match text.parse::<DocumentMut>() {
+        Ok(d) => show_table(d.as_table()),
+        Err(_) => "ERR".to_string(),
+    }
+}
+
+fn cmd_toml(args: &Args) -> String {
+    let mut r = Rd { b: &args[0], i: 0 };
+    let kind = r.u8();
+    let v = rd_tv(&mut r);
+    let map = if cfg!(feature = "po") { "po" } else { "bt" };
+    match kind {
+        b'V' | b'X' => {
+            let (target, ix) = if kind == b'X' {
+                let k = r.key();
+                let via_value = &v[k.as_str()];
+                let via_table = &v.as_table().expect("script: X needs a table")[k.as_str()];
+                (via_value.clone(), verdict(via_value.to_string() == via_table.to_string()))
+            } else {
+                (v.clone(), "ok")
+            };
+            assert!(r.i == r.b.len(), "script: trailing bytes");
+            let text = target.to_string();
+            let twice = target.to_string() == text && format!("{target}") == text && target.clone().to_string() == text;
+            format!(
+                "vd={} got_vd={} e_vd={} built={} twice={} ix={ix} map={map}",
+                hex(text.as_bytes()),
+                got_value_text(&text),
+                edit_value_text(&text),
+                show_tv(&target),
+                verdict(twice)
+            )
+        }
+        b'T' => {
+            assert!(r.i == r.b.len(), "script: trailing bytes");
+            let t = v.as_table().expect("script: T needs a table").clone();
+            let vd = v.to_string();
+            let vs = toml::to_string(&v);
+            let vp = toml::to_string_pretty(&v);
+            let td = t.to_string();
+            let ts = toml::to_string(&t);
+            let tp = toml::to_string_pretty(&t);
+            let (Ok(vs), Ok(vp), Ok(ts), Ok(tp)) = (vs, vp, ts, tp) else {
+                return format!("SERERR map={map}");
+            };
+            let twice = v.to_string() == vd
+                && toml::to_string(&v).ok().as_deref() == Some(&vs)
+                && toml::to_string_pretty(&v).ok().as_deref() == Some(&vp)
+                && t.to_string() == td
+                && toml::to_string_pretty(&t).ok().as_deref() == Some(&tp)
+                && v.clone().to_string() == vd
+                && t.clone().to_string() == td;
+            let got_td = match td.parse::<toml::Table>() {
+                Ok(t2) => show_tt(&t2),
+                Err(_) => "ERR".to_string(),
+            };
+            format!(
+                "vd={} got_vd={} e_vd={} vs={} got_vs={} e_vs={} vp={} got_vp={} e_vp={} td={} got_td={} e_td={} tp={} got_tp={} e_tp={} tseq={} built={} twice={} map={map}",
+                hex(vd.as_bytes()),
+                got_value_text(&vd),
+                edit_value_text(&vd),
+                hex(vs.as_bytes()),
+                got_doc_text(&vs),
+                edit_doc_text(&vs),
+                hex(vp.as_bytes()),
+                got_doc_text(&vp),
+                edit_doc_text(&vp),
+                hex(td.as_bytes()),
+                got_td,
+                edit_doc_text(&td),
+                hex(tp.as_bytes()),
+                got_doc_text(&tp),
+                edit_doc_text(&tp),
+                verdict(ts == td),
+                show_tv(&v),
+                verdict(twice)
+            )
+        }
+        c => panic!("script: bad toml kind {c}"),
+    }
+}
+
 fn run_cmd(cmd: &str, args: &Args) -> String {
     if args.len() != 1 {
         return "bad-args".to_string();
@@ -266,6 +468,7 @@ fn run_cmd(cmd: &str, args: &Args) -> String {
         "build" => cmd_build(args),
         "val" => cmd_val(args),
         "key" => cmd_key(args),
+        "toml" => cmd_toml(args),
         _ => "unknown-command".to_string(),
     }
 }
